@@ -12,13 +12,13 @@ import (
 	"testing"
 	"time"
 
+	dtlsServer "github.com/plgd-dev/go-coap/v3/dtls/server"
 	"github.com/plgd-dev/go-coap/v3/message"
 	"github.com/plgd-dev/go-coap/v3/message/codes"
 	"github.com/plgd-dev/go-coap/v3/message/pool"
 	"github.com/plgd-dev/go-coap/v3/net/responsewriter"
 	"github.com/plgd-dev/go-coap/v3/options"
 	"github.com/plgd-dev/go-coap/v3/options/config"
-	"github.com/plgd-dev/go-coap/v3/udp"
 	udpClient "github.com/plgd-dev/go-coap/v3/udp/client"
 	"pgregory.net/rapid"
 
@@ -28,6 +28,7 @@ import (
 	"verif/memnet"
 	"verif/peer"
 	"verif/refcodec"
+	"verif/roles"
 	"verif/udpsrv"
 )
 
@@ -55,6 +56,9 @@ type Scenario struct {
 	Queue int    `json:"queue"`
 	Reqs  []Req  `json:"reqs"`
 	Steps []Step `json:"steps"`
+	// Role: "" the datagram connection of a client constructor; "server" the connection a
+	// dtls.NewServer creates for an accepted peer
+	Role string `json:"role,omitempty"`
 }
 
 type invocation struct {
@@ -147,17 +151,16 @@ func Exec(t *testing.T, sc Scenario, shard int, r *evid.Run) (fail *evid.Failure
 			}
 		}
 		var tk endpoints.Ticker
-		uopts := []udp.Option{
+		mids := func() func() int32 { n := int32(20000); return func() int32 { n++; return n } }()
+		uopts := []any{
 			options.WithHandlerFunc(udpClient.HandlerFunc(handler)),
 			options.WithMessagePool(pool.New(8, 2048)),
 			options.WithPeriodicRunner(tk.Runner()),
 			options.WithErrors(errs.Add),
 			options.WithReceivedMessageQueueSize(sc.Queue),
 			options.WithBlockwise(false, 6, time.Second),
-			endpoints.UDPCfg(func(cfg *udpClient.Config) {
-				n := int32(20000)
-				cfg.GetMID = func() int32 { n++; return n }
-			}),
+			endpoints.UDPCfg(func(cfg *udpClient.Config) { cfg.GetMID = mids }),
+			roles.DTLSServerCfg(func(cfg *dtlsServer.Config) { cfg.GetMID = mids }),
 		}
 		if sc.Mode == "gopool" {
 			uopts = append(uopts, options.WithProcessReceivedMessageFunc(config.ProcessReceivedMessageFunc[*udpClient.Conn](
@@ -165,7 +168,10 @@ func Exec(t *testing.T, sc Scenario, shard int, r *evid.Run) (fail *evid.Failure
 					go cc.ProcessReceivedMessageWithHandler(req, h)
 				})))
 		}
-		srv := endpoints.UDP(link.A, uopts...)
+		srv, stopRole, errRole := roles.Packet(sc.Role, link, bubble.Wait, uopts...)
+		if errRole != nil {
+			panic(errRole)
+		}
 		// the peer answers the nested request of a handler as soon as that handler has been released:
 		// at once when the request is written after the release (Tap runs on the writer's goroutine),
 		// from the wire log otherwise
@@ -367,6 +373,7 @@ func Exec(t *testing.T, sc Scenario, shard int, r *evid.Run) (fail *evid.Failure
 			}
 		}
 		_ = srv.Close()
+		stopRole()
 		bubble.Wait()
 	})
 	if res.Panic != "" {
@@ -525,6 +532,9 @@ func b2i(b bool) int64 {
 
 func gen(t *rapid.T) Scenario {
 	sc := Scenario{Mode: rapid.SampledFrom([]string{"loop", "loop", "gopool"}).Draw(t, "mode"), Queue: rapid.SampledFrom([]int{0, 1, 16}).Draw(t, "queue")}
+	if rapid.IntRange(0, 2).Draw(t, "role") == 0 {
+		sc.Role = "server"
+	}
 	n := rapid.IntRange(1, 4).Draw(t, "nreq")
 	mids := rapid.SampledFrom([][]int{{100, 101, 102, 103}, {65535, 0, 1, 2}, {20001, 20002, 20003, 20004}, {4000, 36767, 36768, 9}}).Draw(t, "midset")
 	for j := 0; j < n; j++ {
@@ -591,6 +601,9 @@ func TestCheck(t *testing.T) {
 				key = string(b)
 			}
 			cls := []string{"dedup/mode=" + sc.Mode}
+			if sc.Role == "server" {
+				cls = append(cls, "dedup/connection-created-by-a-server")
+			}
 			for _, st := range sc.Steps {
 				if st.Kind == "expire" || st.Kind == "nearexpire" {
 					cls = append(cls, "dedup/has-"+st.Kind)
